@@ -223,6 +223,24 @@ func (c *Ctx) vmModel() (*vmModel, error) {
 			c.litNames[v.Lit] = role
 		}
 	}
+	// every other method of the machine is interpreted in place as well (an arm split into steps),
+	// except the two reporters, whose calls are events the rules look at
+	m.InlineMethods = map[types.Object]*ast.FuncDecl{}
+	for _, it := range c.sortedDecls() {
+		fn, ok := it.obj.(*types.Func)
+		if !ok || it.fd == fd || it.fd.Body == nil || it.fd.Recv == nil {
+			continue
+		}
+		sig := fn.Type().(*types.Signature)
+		if sig.Recv() == nil || !types.Identical(sig.Recv().Type(), c.typeOfRecv(fd)) {
+			continue
+		}
+		switch funcName(fn) {
+		case "vm.runtimeError", "vm.warning":
+			continue
+		}
+		m.InlineMethods[fn] = it.fd
+	}
 	// helpers written as methods of the machine instead of closures: classified the same way, interpreted in place
 	m.MethodRoles = map[types.Object]string{}
 	for _, it := range c.sortedDecls() {
@@ -245,24 +263,6 @@ func (c *Ctx) vmModel() (*vmModel, error) {
 		m.MethodRoles[fn] = role
 		m.Closures[role] = lit
 		aliasOf[fn] = typeShort(sig.Recv().Type()) + "." + fd.Name.Name + "$" + role
-	}
-	// every other method of the machine is interpreted in place as well (an arm split into steps),
-	// except the two reporters, whose calls are events the rules look at
-	m.InlineMethods = map[types.Object]*ast.FuncDecl{}
-	for _, it := range c.sortedDecls() {
-		fn, ok := it.obj.(*types.Func)
-		if !ok || it.fd == fd || it.fd.Body == nil || it.fd.Recv == nil {
-			continue
-		}
-		sig := fn.Type().(*types.Signature)
-		if sig.Recv() == nil || !types.Identical(sig.Recv().Type(), c.typeOfRecv(fd)) {
-			continue
-		}
-		switch funcName(fn) {
-		case "vm.runtimeError", "vm.warning":
-			continue
-		}
-		m.InlineMethods[fn] = it.fd
 	}
 	in.Undecided = nil // classification probes are not part of the verdict
 	// statements of the loop body before and after the switch
